@@ -14,6 +14,7 @@ def evOk (cfg : Cfg) (st : St) (r : Req) : Ev → Bool
   | .cbNone u o => u == r.user && o == r.cb && r.method == "none" && cfg.noClientAuth && cfg.noClientAuthCb && !st.partialRet
   | .cbVpk u k _ sf o => u == r.user && k == r.pk.key && sf == r.pk.sigFormat && o == r.vcb && cfg.verifiedCb &&
       r.method == "publickey" && !r.pk.isQuery
+  | .cbGssAllow g u o => g == st.gen && st.cbs.gss && u == r.user && o == r.cb && r.method == "gssapi-with-mic"
   | .cbBanner u => u == r.user && cfg.bannerCb.isSome
   | .sendPkOk a k => a == r.pk.algo && k == r.pk.key && r.pk.isQuery && r.method == "publickey"
   | .log m _ => m == r.method
@@ -94,6 +95,19 @@ theorem pkPhase_evs (cfg : Cfg) (st : St) (r : Req) (hu : st.user = r.user) (hm 
       · rw [h, List.all_append, hevs2]; simp [evOk, hq, hm]
       · rw [h, List.all_append, hevs2]; simp [evOk, hq, hm, hv, hst2, hu]
 
+theorem kgEv_evOk {cfg : Cfg} {st : St} {r : Req} {x : List Ev} (hu : st.user = r.user)
+    (h : x.all (kgEv st r) = true) : x.all (evOk cfg st r) = true := by
+  rw [List.all_eq_true] at h ⊢
+  intro e he
+  have := h e he
+  cases e <;> simp [kgEv, auxEv, evOk, hu] at this ⊢ <;> simp_all
+
+theorem kg_evs {cfg : Cfg} {st : St} {r : Req} {ph : Phase} (hu : st.user = r.user)
+    (hkg : (r.method = "keyboard-interactive" ∧ ph = kbdPhase st r) ∨ (r.method = "gssapi-with-mic" ∧ ph = gssPhase st r)) :
+    ph.evs.all (evOk cfg st r) = true := by
+  obtain ⟨x, hx, h⟩ := kg_simple st r ph hkg
+  rcases h with h | h | h <;> rw [h] <;> exact kgEv_evOk hu hx
+
 theorem methodPhase_evs (cfg : Cfg) (st : St) (r : Req) (hu : st.user = r.user) :
     (methodPhase cfg st r).evs.all (evOk cfg st r) = true := by
   unfold methodPhase
@@ -110,13 +124,16 @@ theorem methodPhase_evs (cfg : Cfg) (st : St) (r : Req) (hu : st.user = r.user) 
     · split
       · rename_i hm
         simp at hm
-        unfold kbdPhase
-        (repeat' split) <;> simp [Phase.evs, evOk, hu, hm] <;> simp_all
+        exact kg_evs hu (Or.inl ⟨hm, rfl⟩)
       · split
         · rename_i hm
           simp at hm
           exact pkPhase_evs cfg st r hu hm
-        · simp [Phase.evs]
+        · split
+          · rename_i hm
+            simp at hm
+            exact kg_evs hu (Or.inr ⟨hm, rfl⟩)
+          · simp [Phase.evs]
 
 theorem conclude_evs (cfg : Cfg) (st : St) (r : Req) (evs : List Ev) (perms : Nat) (e : AuthErr) :
     (conclude cfg st r evs perms e).evs = evs ∨ ∃ ms p, (conclude cfg st r evs perms e).evs = evs ++ [Ev.sendFailure ms p] ∨
@@ -195,6 +212,16 @@ def PartialOrigin (st : St) (r : Req) (perms : Nat) (nx : Cbs) (g : Nat) : Prop 
   (r.cb = .partialOk nx perms ∧ g = st.attempts) ∨ (r.vcb = .partialOk nx perms ∧ g = st.attempts) ∨
   (∃ c, st.cache = some c ∧ c.user = st.user ∧ c.key = r.pk.key ∧ c.result = .partialOk nx g ∧ c.perms = perms)
 
+theorem kg_partial {st st' : St} {r : Req} {ph : Phase} {evs : List Ev} {perms : Nat} {nx : Cbs} {g : Nat}
+    (hkg : (r.method = "keyboard-interactive" ∧ ph = kbdPhase st r) ∨ (r.method = "gssapi-with-mic" ∧ ph = gssPhase st r))
+    (h : ph = .res st' evs perms (.partialOk nx g)) : PartialOrigin st r perms nx g := by
+  obtain ⟨x, _, hx⟩ := kg_simple st r ph hkg
+  rcases hx with hx | hx | hx <;> rw [h] at hx <;> simp at hx
+  obtain ⟨_, _, c, d⟩ := hx
+  obtain ⟨e1, e2⟩ := split_partial d.symm
+  rw [← c] at e1
+  exact Or.inl ⟨e1, e2⟩
+
 theorem pkDecide_partial {cfg : Cfg} {st st' : St} {r : Req} {cand : Cached} {evs evs' : List Ev} {perms : Nat}
     {nx : Cbs} {g : Nat} (h : pkDecide cfg st r cand evs = .res st' evs' perms (.partialOk nx g)) :
     (r.vcb = .partialOk nx perms ∧ g = st.attempts) ∨ (cand.result = .partialOk nx g ∧ cand.perms = perms) := by
@@ -236,12 +263,9 @@ theorem methodPhase_partial {cfg : Cfg} {st st' : St} {r : Req} {evs : List Ev} 
       rw [c] at e1
       exact Or.inl ⟨e1, e2⟩
     · split at h
-      · unfold kbdPhase at h
-        (repeat' split at h) <;> simp at h
-        obtain ⟨_, _, c, d⟩ := h
-        obtain ⟨e1, e2⟩ := split_partial d
-        rw [c] at e1
-        exact Or.inl ⟨e1, e2⟩
+      · rename_i hm
+        simp at hm
+        exact kg_partial (Or.inl ⟨hm, rfl⟩) h
       · split at h
         · unfold pkPhase at h
           split at h
@@ -260,7 +284,11 @@ theorem methodPhase_partial {cfg : Cfg} {st st' : St} {r : Req} {evs : List Ev} 
                 · obtain ⟨d1, d2, _⟩ := d nx g a
                   rw [b] at d2
                   exact Or.inl ⟨d2, d1⟩
-        · simp at h
+        · split at h
+          · rename_i hm
+            simp at hm
+            exact kg_partial (Or.inr ⟨hm, rfl⟩) h
+          · simp at h
 
 theorem methodPhase_cfg {cfg : Cfg} {st st' : St} {r : Req} {evs : List Ev}
     (hph : methodPhase cfg st r = .again st' evs ∨ ∃ p e, methodPhase cfg st r = .res st' evs p e) :
@@ -274,8 +302,10 @@ theorem methodPhase_cfg {cfg : Cfg} {st st' : St} {r : Req} {evs : List Ev}
     · unfold pwPhase at hph
       (repeat' split at hph) <;> simp at hph <;> obtain ⟨rfl, _⟩ := hph <;> simp
     · split at hph
-      · unfold kbdPhase at hph
-        (repeat' split at hph) <;> simp at hph <;> obtain ⟨rfl, _⟩ := hph <;> simp
+      · rename_i hm
+        simp at hm
+        obtain ⟨rfl, _⟩ := kg_result (Or.inl ⟨hm, rfl⟩) hph
+        simp
       · split at hph
         · unfold pkPhase at hph
           split at hph
@@ -295,9 +325,14 @@ theorem methodPhase_cfg {cfg : Cfg} {st st' : St} {r : Req} {evs : List Ev}
               rcases l4 with ⟨_, rfl, _⟩ | ⟨hm, rfl, _⟩
               · simp
               · simp [hm]
-        · simp at hph
-          obtain ⟨rfl, _⟩ := hph
-          simp
+        · split at hph
+          · rename_i hm
+            simp at hm
+            obtain ⟨rfl, _⟩ := kg_result (Or.inr ⟨hm, rfl⟩) hph
+            simp
+          · simp at hph
+            obtain ⟨rfl, _⟩ := hph
+            simp
 
 /-- **step_switch.** A continuing iteration leaves the callback set, its tag and the partial flag
     alone — or it was a partial success: then the new callback set is the `Next` of a
